@@ -97,6 +97,8 @@ pub open spec fn rel_result(r: RuntimeResult<TailedEvalResult>, ans: EvaluatedVa
     }
 }
 
+// @@INCLUDE stdx@@
+
 // @@EXTRACTED@@
 
 } // verus!
